@@ -1373,9 +1373,12 @@ class TriaMesh:
             np.concatenate((A[gg1[:, 0], gg1[:, 1]], A[gg2[:, 0], gg2[:, 1]]), axis=0).T
             - 1
         )
+        # plain (n, 2) index array (sparse indexing returns a matrix, and squeezing
+        # the indexed points would drop the point axis for a single segment)
+        edge_idxs = np.asarray(edge_idxs)
         # lengths computation
-        p1 = np.squeeze(p[edge_idxs[:, 0]])
-        p2 = np.squeeze(p[edge_idxs[:, 1]])
+        p1 = p[edge_idxs[:, 0]]
+        p2 = p[edge_idxs[:, 1]]
         llength = np.sqrt(((p1 - p2) ** 2).sum(1)).sum()
         # compute path from unordered, not-directed edge list
         # and return path as list of points, and path length
